@@ -884,10 +884,8 @@ pub fn invalid_reason(world: &World) -> Option<String> {
                 }
             }
             if let Some(v) = b.attr("keep-sorted") {
-                // values whose meaning is ambiguous (surrounding blanks) are not generated
-                if v != trim(v) {
-                    return Some("keep-sorted value with surrounding blanks".into());
-                }
+                // a direction with surrounding blanks is not trimmed (unlike the format): it is an
+                // unknown direction; blank-only values mean the default
                 let fmt = b.attr("keep-sorted-format").unwrap_or("");
                 if fmt.eq_ignore_ascii_case("numeric") {
                     // keys must be plain numbers or plainly non-numeric, and a non-numeric key
